@@ -88,7 +88,7 @@ def relevant(proj, tag):
 
 def run(R, sname, conf):
     tier = R.tier
-    cases = conf.get("cases", {}).get(tier, 300 if tier == "quick" else 6000)
+    cases = conf.get("cases", {}).get(tier, 400 if tier == "quick" else 8000)
     steps = conf.get("steps", 80)
     proj = conf.get("projection", {})
     tags = conf.get("oracle_tags", [R.pid])
